@@ -221,6 +221,8 @@ pub fn cell_to_children(index: u64, child_resolution: Option<i32>) -> Result<Vec
     };
 
     for &new_origin_id in &new_origin_ids {
+        #[cfg(feature = "verif")]
+        crate::verif::yield_point(crate::verif::site::CHILDREN_ORIGIN);
         for &new_segment in &new_segments {
             for i in 0..children_count {
                 let new_s = shifted_s + i as u64;
